@@ -54,6 +54,25 @@ CLAIMED['C16'] = est("fit -> summary() / summary(feature) (-> reload -> summary(
 CLAIMED['C17'] = est("fit -> sequences of valid update_discretizer edits, each followed by transform, summary and reload+transform; TLC recomputes the edited values_orders with the GroupedList operators (UpdateVo) and compares; design invariant Inv_C17_Edit states the partition effect of an edit.", "DESIGN.md §5.2, §6 C17")
 CLAIMED['C19'] = est("malformed calls of every listed class injected before and after a successful fit on the 6 anchored classes: outcome must be AssertionError, projected state / JSON / transform(training frame) unchanged.", "DESIGN.md §5.2, §6 C19")
 
+CLAIMED['C09'] = dict(
+    text="Design: TLC model-checks specs/BaseStage.tla (exact model of ContinuousDiscretizer's recursive quantile search and of the rare-modality merge loop, one action per merge, "
+         "with termination) over every sorted sample of <= 6 (8 thorough) values out of 5 x missing count x 9 thresholds incl. non-integer 1/min_freq, and every ordinal count vector "
+         "K<=3 (4), with the C09 bounds as invariants (the frequent-value clause outside the region of known finding F10, inside which a witness run must still find the counterexample). "
+         "Binding (code->spec): real fits of the six base-stage classes on the same enumerated domain (quick: sample), run-length and random samples; the fitted values_orders and every "
+         "observed merge decision are judged by TLC with specs/BaseTrace.tla (property clauses on the observed result, conformance = equality with the exact model).",
+    note="Trusted: TLC, the projection of drivers/base.py (ranks, counts), exact-vs-float agreement of frequency comparisons for n<=64. Known finding F10 (q = round(1/min_freq)) is matched "
+         "by a TLC-computed predicate (every missing frequent value is infrequent for the rounded q).",
+    technique="TLA+ exact algorithm model checked by TLC over enumerated small samples + TLC trace validation of real fits and merge decisions",
+    design_ref="DESIGN.md §5.3, §5.4, §6 C09")
+CLAIMED['C03'] = dict(
+    text="Design: Inv_C03_Runs (BaseStage.tla: every merge joins neighbours), Inv_C03 (Carver.tla: fitted groups are runs of the base modalities), Inv_C03_Monotone (Estimator.tla: float "
+         "transform is non-decreasing). Binding: (1) base-stage fits judged with BaseTrace.tla (merge into a neighbour, groups are intervals / contiguous runs, categorical order by target rate); "
+         "(2) real carver fits judged with CarverTrace.tla (groups contiguous w.r.t. the base modalities observed from the carver's internal Discretizer); (3) fit -> transform(sweep frame over "
+         "the real line / over the ordinal ranking) histories judged with EstimatorTrace.tla (monotone outputs, index of the first boundary >= x, last interval unbounded).",
+    note="Trusted: TLC, the projections of drivers/base.py, carve.py, estimator.py; finite probes stand for the real line (order-isomorphic rank codes).",
+    technique="TLA+ design models checked by TLC + TLC trace validation of real fits, merge decisions and sweep transforms",
+    design_ref="DESIGN.md §5.3-§5.5, §6 C03")
+
 NOT_YET = "check not built yet in this round (planned, see DESIGN.md §9); no claim is made"
 
 checks, na = [], []
